@@ -191,7 +191,18 @@ func runNodeHistory(tp *sim.Tape, tier, prop string, o *runOut) {
 		panic(err)
 	}
 	defer func() { nd.Close(); time.Sleep(3 * time.Second) }()
-	f := NewFixture(n, t, tp.Seed, time.Now())
+	base := time.Now()
+	endOfTime := false
+	if tp.Choose(12, "endOfTime?") == 0 {
+		// see twin.go: a round dated at the end of representable time. The proposal
+		// then sets a deadline that cannot be written down
+		endOfTime = true
+		// (only the proposal: the node stamps the start of key generation with its own
+		// clock, which this engine does not own, so later overflows belong to C19's twin)
+		base = time.Date(9999, 12, 27, 12, 0, 0, 0, time.UTC)
+		o.stats.Fault("round-dated-at-the-end-of-representable-time")
+	}
+	f := NewFixture(n, t, tp.Seed, base)
 	m := NewModel(n, t)
 	focus := "dkg"
 	if prop == "C06" {
@@ -214,6 +225,7 @@ func runNodeHistory(tp *sim.Tape, tier, prop string, o *runOut) {
 		nSent := len(nd.Board.Sent)
 		nOps := len(pending(nd))
 		saved := m.Clone()
+		mPrev := *m
 		r := m.Step(e)
 		if m.KeyVar >= 0 {
 			f.UseKeyVariant(m.KeyVar)
@@ -300,6 +312,18 @@ func runNodeHistory(tp *sim.Tape, tier, prop string, o *runOut) {
 			_ = beforeSnap
 		case ExpAccept:
 			judged++
+			if endOfTime && perr != nil {
+				// a step whose deadline falls behind the last representable year may be
+				// refused (the statement does not say); refused, it must be a no-op
+				if normDump(before) != normDump(after) {
+					fail(o, prop, fmt.Sprintf("rejected-event-changed-round/%s/in-%s", e.Kind, beforePh),
+						fmt.Sprintf("event %s dated at the end of representable time was refused (%v) but the persisted round changed (state now %s); history: %s", e, perr, st, strings.Join(hist, " ")))
+					break
+				}
+				*m = mPrev
+				o.stats.Probe("refused-at-the-end-of-representable-time")
+				continue
+			}
 			if ph != m.Ph {
 				sig := fmt.Sprintf("phase-mismatch/%s/model-%s/impl-%s", e.Kind, m.Ph, ph)
 				if m.Ph == PhCancelled {
